@@ -918,4 +918,52 @@ theorem mkTable_fieldless (a : CtorArgs) (ha : a.fields = Option.none)
         simp only [hn]
         exact (colName_ok _).2
 
+/-! ## re-formatting a table with some of its own reported column descriptions -/
+
+theorem mem_pickCols {cols : List Col} {idxs : List Nat} {c : Col} (h : c ∈ pickCols cols idxs) : c ∈ cols := by
+  simp only [pickCols, List.mem_filterMap] at h
+  obtain ⟨i, _, hi⟩ := h
+  exact List.mem_of_getElem? hi
+
+/-- `table.fmt = <its own column descriptions at the places idxs>`: accepted; the new columns are the picked ones
+with NO negotiated width, whatever the old columns had; fields and limits stay, the skipped-lines flag is forgotten -/
+theorem applySetter_subFmtStr (t : Tbl) (idxs : List Nat) (plain : Bool)
+    (hok : ∀ c ∈ t.fmt.cols, ColNameOk c ∧ findField t.fmt.fields c.field.name = some c.field ∧
+      verifyModifier c.field.ftype c.modifier = .ok ())
+    (hne : pickCols t.fmt.cols idxs ≠ []) :
+    applySetter t (subFmtStr t.fmt idxs plain) = .ok { t with fmt :=
+      ⟨t.fmt.fields, (pickCols t.fmt.cols idxs).map Col.reset, t.fmt.limF, t.fmt.limL, Option.none⟩ } := by
+  let sel := (pickCols t.fmt.cols idxs).map fun c => if plain then { c with width := Option.none } else c
+  have hsel : ∀ c ∈ sel, ∃ c0 ∈ t.fmt.cols, c.field = c0.field ∧ c.modifier = c0.modifier := by
+    intro c hc
+    simp only [sel, List.mem_map] at hc
+    obtain ⟨c0, hc0, rfl⟩ := hc
+    refine ⟨c0, mem_pickCols hc0, ?_⟩
+    cases plain <;> exact ⟨rfl, rfl⟩
+  have hname : ∀ c ∈ sel, ColNameOk c := by
+    intro c hc
+    obtain ⟨c0, hc0, hf, hm⟩ := hsel c hc
+    have := (hok c0 hc0).1
+    unfold ColNameOk at this ⊢
+    rw [hf, hm]; exact this
+  have hfind : ∀ c ∈ sel, findField t.fmt.fields c.field.name = some c.field ∧
+      verifyModifier c.field.ftype c.modifier = .ok () := by
+    intro c hc
+    obtain ⟨c0, hc0, hf, hm⟩ := hsel c hc
+    rw [hf, hm]; exact (hok c0 hc0).2
+  have hselne : sel ≠ [] := by
+    simpa [sel] using hne
+  have hreset : sel.map Col.reset = (pickCols t.fmt.cols idxs).map Col.reset := by
+    simp only [sel, List.map_map]
+    apply List.map_congr_left
+    intro c _
+    cases plain <;> rfl
+  have hp : parseFmt (colsToStr sel) = .ok ⟨.explicit (sel.map pcolOf), Option.none⟩ := by
+    unfold parseFmt
+    rw [splitOn_no_sep _ _ (colsToStr_not_mem sel hname)]
+    simp only [parseCols_colsToStr sel hselne hname, bind, Except.bind]
+  show applySetter t (colsToStr sel) = _
+  unfold applySetter
+  simp only [hp, setterCols_pcolOf t.fmt.fields sel hfind, hreset, bind, Except.bind]
+
 end Table
